@@ -524,6 +524,9 @@ impl CodegenContext {
         let path = self.current_scope.join(&id);
         if let Some(nx) = self.symbols.try_index(self.symbols.root, path) {
             self.symbols.remove(nx);
+            // The index will be handed out again, possibly to another symbol
+            self.analysis
+                .remove_definition(&DefinitionType::Symbol(nx));
         }
     }
 
